@@ -228,3 +228,25 @@ def known_finding(ctx, pid, case, kind, detail):
                 ctx.known.append(line)
             return True
     return False
+
+
+class CaseTimeout(BaseException):
+    """raised by the watchdog inside an implementation run that does not come back"""
+
+
+import contextlib as _contextlib
+
+
+@_contextlib.contextmanager
+def watchdog(seconds=30):
+    import signal
+
+    def on_alarm(signum, frame):
+        raise CaseTimeout()
+    old = signal.signal(signal.SIGALRM, on_alarm)
+    signal.setitimer(signal.ITIMER_REAL, seconds)
+    try:
+        yield
+    finally:
+        signal.setitimer(signal.ITIMER_REAL, 0)
+        signal.signal(signal.SIGALRM, old)
